@@ -4,7 +4,7 @@ import os
 import re
 import types
 
-from vf import env, table, tlc
+from vf import core, env, table, tlc
 
 META = dict(
     property_id="C07", level="model_checking", design_ref="DESIGN.md §4 C07",
@@ -294,12 +294,33 @@ def e2e(ctx, rows):
 
 def _sig(law, row):
     c, o = row["c"], row["impl"]
-    where = "plan_autopack_combinations" if law in ("noerror", "shape") and o["plan"]["kind"] in ("error", "malformed") \
-        else "_do_autopack"
-    what = o["plan"] if where == "plan_autopack_combinations" else o["auto"]
-    detail = what["exc"] if what["kind"] == "error" else what["kind"]
+    det = lambda r: r["exc"] if r["kind"] == "error" else r["kind"]
     cls = "zeros" if c["zeros"] else ("total=sum" if c["total"] == sum(c["counts"]) else "total!=sum")
-    return "law-%s:%s/%s:%s" % (law, where, detail, cls)
+    return "law-%s:plan_autopack_combinations=%s,_do_autopack=%s:%s" % (law, det(o["plan"]), det(o["auto"]), cls)
+
+
+def _judge(ctx, rows, label):
+    for row, failed, drift in table.judge(ctx, "AutopackTrace", rows, workers=2, label=label):
+        for law in failed:
+            ctx.violation(_sig(law, row), "law %s fails on %s -> %s" % (law, row["c"], row["impl"]), row)
+        if drift and not failed:
+            ctx.drift("implementation differs from transcription on %s: %s" % (row["c"], row["impl"]), row)
+
+
+def _stub_chunk(sub, cases):
+    Coll = _collection_class()
+    rows = []
+    for k in cases:
+        c = k["c"]
+        rows.append({"c": c, "impl": observe_stub(Coll, c, sub.rng)})
+        sub.count(1)
+        if len(c["counts"]) + c["zeros"] > sum(int(d) for d in str(c["total"])):     # the planner is consulted
+            sub.nontrivial((tuple(c["counts"]), c["zeros"]))
+    planned = [r for r in rows if r["impl"]["auto"]["kind"] == "plan"]
+    if planned:
+        sub.sample(planned[len(planned) // 2], limit=1)
+    sub.cov.setdefault("_collect", []).append({"rows": len(rows), "planned": len(planned)})
+    _judge(sub, rows, "AutopackTrace case table")
 
 
 def run(ctx):
@@ -309,37 +330,34 @@ def run(ctx):
     cases = table.generate(ctx, "AutopackGen", consts)
     # anti-vacuity: TLC must reach all three witness states (one run, -continue reports every violated invariant)
     wit = ("WitnessPlan", "WitnessNoneAbove", "WitnessPartBucket")
-    res = tlc.run(ctx, "AutopackGen", cfg_text=table.cfg(small, wit), extra=("-continue",), allow_violation=True)
+    res = tlc.run(ctx, "AutopackGen", cfg_text=table.cfg(small, wit), extra=("-continue",), allow_violation=True, workers=2)
     found = set(re.findall(r"Invariant (\w+) is violated", res["output"]))
     if set(wit) - found:
         ctx.machinery("vacuity guard: witnesses not reached: %s" % sorted(set(wit) - found))
     ctx.add_tlc(res, "witnesses " + ",".join(wit))
     if not cases:
         ctx.machinery("empty case table")
-    Coll = _collection_class()
-    rows = []
-    for k in cases:
-        c = k["c"]
-        rows.append({"c": c, "impl": observe_stub(Coll, c, ctx.rng)})
-        ctx.count(1)
-        if len(c["counts"]) + c["zeros"] > sum(int(d) for d in str(c["total"])):     # the planner is consulted
-            ctx.nontrivial((tuple(c["counts"]), c["zeros"]))
-    planned = [r for r in rows if r["impl"]["auto"]["kind"] == "plan"]
-    if not planned:
+    # the case table on the real methods (stub packs), judged by TLC, in parallel workers
+    core.fork_map(ctx, _stub_chunk, cases, nproc=4 if ctx.quick else 16, chunks_per_proc=1)
+    planned = [x for x in ctx.collected if "planned" in x]
+    if sum(x["rows"] for x in planned) != len(cases):
+        ctx.machinery("judged %d of %d cases" % (sum(x["rows"] for x in planned), len(cases)))
+    if not sum(x["planned"] for x in planned):
         ctx.machinery("no case produced a plan on the real code")
-    ctx.sample(planned[len(planned) // 2])
-    n_stub = len(rows)
+    Coll = _collection_class()
+    # end to end
+    rows = []
     e2e(ctx, rows)
-    n_e2e = len(rows) - n_stub
-    e2e_plans = [r for r in rows[n_stub:] if r["impl"]["auto"]["kind"] == "plan"]
+    n_e2e = len(rows)
+    e2e_plans = [r for r in rows if r["impl"]["auto"]["kind"] == "plan"]
     if n_e2e < 20 or len(e2e_plans) < 4:
         ctx.machinery("end-to-end scenarios recorded %d autopack calls, %d plans" % (n_e2e, len(e2e_plans)))
     ctx.count(n_e2e)
-    for r in rows[n_stub:]:
+    for r in rows:
         ctx.nontrivial(("e2e", tuple(r["c"]["counts"]), r["c"]["zeros"], r["c"]["total"]))
     ctx.sample(e2e_plans[-1])
     ctx.cov["e2e"] = {"autopack_calls": n_e2e, "plans": len(e2e_plans),
-                      "by_scenario": {t: sum(1 for r in rows[n_stub:] if r["tag"] == t)
+                      "by_scenario": {t: sum(1 for r in rows if r["tag"] == t)
                                       for t in ("commit", "fetch", "overlap", "signature")}}
     for r in rows:
         r.pop("tag", None)
@@ -349,11 +367,7 @@ def run(ctx):
              "_do_autopack call of real 2a repositories built by commits, batched fetches, overlapping write groups "
              "and signature-only packs; non-trivial = more packs than the digit sum of the total (planner consulted) "
              "or end-to-end" % consts)
-    for row, failed, drift in table.judge(ctx, "AutopackTrace", rows):
-        for law in failed:
-            ctx.violation(_sig(law, row), "law %s fails on %s -> %s" % (law, row["c"], row["impl"]), row)
-        if drift and not failed:
-            ctx.drift("implementation differs from transcription on %s: %s" % (row["c"], row["impl"]), row)
+    _judge(ctx, rows, "AutopackTrace end-to-end")
     # ---- out of domain (documented, no verdict): total < sum, i.e. a key_count() that de-duplicated.  The real
     #      planner and the transcription are compared there (conformance of the IndexError behaviour only).
     import itertools
@@ -366,7 +380,7 @@ def run(ctx):
     fin = os.path.join(ctx.workdir, "ood.json")
     with open(fin, "w") as f:
         json.dump(ood, f)
-    data, _ = tlc.json_cases(ctx, "AutopackTrace", cfg_text=table.cfg(None), env={"VF_IN": fin},
+    data, _ = tlc.json_cases(ctx, "AutopackTrace", cfg_text=table.cfg(None), env={"VF_IN": fin}, workers=2,
                              label="out-of-domain total<sum: conformance only")
     kinds = {}
     for r in ood:
